@@ -191,6 +191,16 @@ GROUPS = {
         functions=['EndpointInfo::{from_parts, to_txt_strings, from_txt_lookup, to_pkarr_signed_packet, from_pkarr_signed_packet}', 'endpoint_info_to_attrs', 'endpoint_info_from_attrs',
                    'TxtAttrs::{from_parts, from_strings, from_txt_lookup, from_pkarr_signed_packet, to_txt_strings, to_pkarr_signed_packet}', 'SignedPacket::from_txt_strings'],
     ),
+    # C35: links the real iroh-dns crate; a scripted resolver under tokio's paused clock
+    'resolve_host_cx': dict(
+        cargo='resolve_host', binary='verif-resolve-host', unit='(cargo) resolve_host/src/main.rs', props=['C35'], files='iroh-dns/src/dns.rs',
+        bounds=dict(quick=['2', '0'], thorough=['4', '0']),
+        space='every pair of outcomes of the IPv4 and the IPv6 lookup — 0..={0} addresses, a failure, or never answering (the 5 s timeout, paused clock) — in each of three '
+              'completion orders (IPv4 first, IPv6 first, both before the stream is first polled), the stream polled by hand between the two completions; plus five URLs '
+              'whose host is an IPv4 literal, an IPv6 literal, or missing',
+        nontrivial='both lookups return addresses, at least two in total',
+        functions=['DnsResolver::{custom, resolve_host_all}', 'DnsResolverInner::op'],
+    ),
     # second line behind the Verus unit builder_bind
     'builder_bind_bx': dict(
         unit='builder_bind.rs', props=['C20'],
